@@ -120,6 +120,9 @@ class Program:
                 if name == "Option::unwrap_or" and len(args) == 2 and args[1] == ("int", 0) and args[0][0] == "call" \
                         and args[0][1] == "usize::checked_sub":
                     return ("call", "usize::saturating_sub", args[0][2])
+                if name in ("Cow::Borrowed", "Cow::Owned") and len(args) == 1:
+                    # Cow::from(x) is the variant constructor
+                    return ("adt", "std::borrow::Cow", name.split("::")[1], (("0", args[0]),))
                 if name == "Option::from_residual" and len(args) == 1:
                     # `opt?` on the None path returns None
                     return ("adt", "std::option::Option", "None", ())
